@@ -1222,7 +1222,7 @@ return 1;""",
             append_format(
                 PY_code,
                 "if (args != {nullptr}) SH_nargs += PyTuple_Size(args);\n"
-                "if (kwds != {nullptr}) SH_nargs += PyDict_Size(args);",
+                "if (kwds != {nullptr}) SH_nargs += PyDict_Size(kwds);",
                 fmt
             )
 
@@ -2442,7 +2442,7 @@ return 1;""",
             append_format(
                 body,
                 "if (args != {nullptr}) SHT_nargs += PyTuple_Size(args);\n"
-                "if (kwds != {nullptr}) SHT_nargs += PyDict_Size(args);",
+                "if (kwds != {nullptr}) SHT_nargs += PyDict_Size(kwds);",
                 fmt
             )
             if is_ctor:
